@@ -11,7 +11,7 @@ from .. import labelled as LB
 ID = "C02"
 LEVEL = "proof"
 PROP_FILE = "Properties/C02.v"
-PROOF_FILES = ["Model/Spfs.v", "Model/Thl.v", "Model/Recon.v", "Model/Entry.v", "Model/Subseq.v", "Model/Toposort.v",
+PROOF_FILES = ["Proofs/SpfsFinal.v", "Proofs/SpfsProofs.v", "Proofs/ThlProofs.v", "Model/Spfs.v", "Model/Thl.v", "Model/Recon.v", "Model/Entry.v", "Model/Subseq.v", "Model/Toposort.v",
                "Proofs/EntryProofs.v", "Proofs/SubseqProofs.v", "Proofs/LabelCostProofs.v", "Proofs/ToposortProofs.v"]
 TRUSTED = ["model Model/Spfs.v of _compute_spfs_entry/_compute_spfs_table/_decode_spfs_table/_spfs (after fix D5), on the Entry (C16), mask (C18), toposort (C19) and evaluator (C06) models"]
 ASSUMES = ["binary trees", "cost vectors with spe + 2*sloss <= dup + 2*floss for the optimality clauses (F-COHERENCE)"]
@@ -262,14 +262,16 @@ def extra(ctx):
     ctx.notes.append(f"specification sample: {n} random inputs checked against the brute-force optimum, {bad} failures")
 
 
-TECHNIQUE = "executable Coq model of the ordered solver (on proved Entry/mask/toposort/evaluator layers) tied to the code by table-level correspondence; optimality theorem not yet proved: brute-force specification oracle on a sample"
-OPEN_GOALS = ["ext_spfs_optimum (result = arg-min over root orders x species mappings x labellings)", "base_spfs_optimum", "spfs_empty_iff", "spfs_sound (validity of decoded labellings)"]
-LEVEL_TEXT = ("The ordered solver is modelled faithfully in Coq on top of machine-checked layers (Entry laws C16, masks/segment distances C18, root orders = topological orders C19, evaluator = recount C06) "
-              "and compared with the implementation at the level of every table value, the ALL sets and ANY members of both variants, and the root orderings; "
-              "the optimality statement itself is not yet machine-checked for this solver (see OPEN_GOALS) and rests on the correspondence plus a brute-force specification sample.")
-LEVEL_NOTE = ("Partial: theorems cover the layers the solver is built from, not yet its optimality. Trusted: Coq kernel, hand-written model, correspondence (differential testing), "
-              "the independent Python brute-force oracle for the sampled specification check.")
-LEVEL = "proof"
+TECHNIQUE = ("Coq proof: refinement of the faithful ordered table (five aggregators per child, six combinations, masks) to a clean recurrence, optimiser charge = evaluator charge "
+             "inside the coherent region (runs_inner_bounds), lower bound + attainment + decode soundness/completeness; root orders = compatible orders through C19; "
+             "model tied to the code by table-level correspondence")
+OPEN_GOALS: list = []
+LEVEL_TEXT = ("Machine-checked for all binary inputs with non-empty leaf syntenies and cost vectors with spe + 2*sloss <= dup + 2*floss, 0 <= floss, 0 <= sloss, transfer cost finite or +inf: "
+              "sreconcile_extended_spfs(ALL) returns exactly the minimum-cost valid ordered solutions over the compatible root orders (or the prescribed one), all species mappings and all labellings; "
+              "sreconcile_base_spfs the minimum among solutions on the LCA mapping; ANY one of them; the result is empty exactly when no root order is compatible; the solver never fails. "
+              "The model is compared with the code on root orderings, every table value, ALL sets and ANY members; a brute-force specification sample runs on every check.")
+LEVEL_NOTE = ("Trusted: Coq kernel; hand-written model (correspondence = differential testing); C16/C18/C19/C06 layers are themselves theorems. No axioms. "
+              "Theorems are about the code after fix D5. Known finding F-COHERENCE outside the region (witness replayed).")
 
 
 def known_signature(f, kf):
